@@ -59,6 +59,16 @@ def check_titration(case, grid):
     def v(key, what, **kw):
         out.append({"key": key, "what": what, "case": dict(case, **kw)})
     o = core.sp(seq)
+    sty = [i + 1 for i, a in enumerate(seq) if a in "STY"]
+    if sty and (len(seq) + seq.count("Y")) % 2 == 0:
+        # phosphosites registered on the object (every S/T/Y) are bookkeeping for the phospho-queries; the pH-dependent charge is a
+        # function of the sequence and must not notice them
+        try:
+            o.set_phosphosites(list(sty))
+            o.get_kappa_after_phosphorylation()
+            calls += 2
+        except Exception:  # noqa
+            pass
     if case.get("pI_first"):
         try:
             o.get_isoelectric_point()      # same object: its result is judged by the pI case, here it is only history
@@ -130,7 +140,11 @@ def check_pI(case):
     S.Sequence.charge_at_pH = counting
     try:
         try:
-            pI = SP(seq).get_isoelectric_point()
+            o_ = SP(seq)
+            sty_ = [i + 1 for i, a in enumerate(seq) if a in "STY"]
+            if sty_ and (len(seq) + seq.count("Y")) % 2 == 1:
+                o_.set_phosphosites(sty_)          # registered phosphosites are not part of the sequence the pI is defined on
+            pI = o_.get_isoelectric_point()
         except TooMany:
             out.append({"key": "pI-does-not-terminate", "what": "%s: get_isoelectric_point made > 400 charge evaluations"
                         % short(seq), "case": case})
@@ -239,7 +253,7 @@ def run(tier, seed, t0):
              "(-0.5..14.5, every pKa and pKa+-1e-6, 0, 14, +-1e-9 around both ends, the 15 bisection midpoints 14k/16; for every other "
              "composition get_isoelectric_point() is called first on the same object): get_NCPR/FCR/mean_net_charge/"
              "fraction_expanding(pH) vs an independent Henderson-Hasselbalch sum, monotone NCPR, |NCPR|<=FCR<=titratable/N, "
-             "rejection exactly outside [0,14]; get_isoelectric_point on each of them and on extreme sequences X^a Y^b "
+             "rejection exactly outside [0,14]; for half of the sequences containing S/T/Y every such position is registered as a phosphosite first (the pH-dependent values are those of the sequence); get_isoelectric_point on each of them and on extreme sequences X^a Y^b "
              "(a up to 1000) and on a (count, length) lattice (1-3, L/7, 3L/10 residues of each of K,D,H,Y,R,C in a chain of every length up to %d) with charge_at_pH counted (<=400) and the reference mean charge per titratable residue at the "
              "returned pH within 0.02; non-trivial = sequences with >=2 kinds of titratable residue" % (n, len(grid), LL),
         bounds={"composition_total": n, "pH_grid": len(grid), "extreme_sizes": list(sizes)},
